@@ -614,13 +614,15 @@ def run(ctx: Ctx):
             ctx.count(f"failing inputs not listed:{ob}")
 
     # ---------------------------------------------------------------- helper: property check of one moments call
-    def check_property(ty, dim, L, pts, w, cs, f, res, exact, tag, fkind="float64", layout="plain"):
+    def check_property(ty, dim, L, pts, w, cs, f, res, exact, tag, fkind="float64", layout="plain", extra=None):
         """Compare the implementation's result with the float64 direct quadrature of the given values over the documented
         rows (f: the float64 value of every element of the function-value array). Returns True if ok."""
         key = f"moments:{ty}:dim={dim}:L={L}:{tag}:{fkind}:{layout}"
         rp = {"type": ty, "orders": L, "points": [list(map(float, p)) for p in pts], "weights": list(map(float, w)),
               "centers": [list(map(float, c)) for c in cs], "func_vals": list(map(float, f)), "func_vals_dtype": fkind, "layout": layout,
               "reproduce": "Grid(np.array(points), np.array(weights)).moments(orders, np.array(centers), np.array(func_vals, dtype=func_vals_dtype), type, return_orders=True)"}
+        if extra:
+            rp.update(extra)
         if is_crash(res):
             if ty == "cartesian" and dim == 1 and ("cartesian", 1) in first_bad:
                 ctx.count("moments:1d-skipped(generator finding)")
@@ -852,6 +854,161 @@ def run(ctx: Ctx):
         ctx.case(("flt", ty, dim, L, npt, ncs, k))
         ctx.count(f"{ty}:{dim}D:centres={ncs}")
 
+    # ---------------------------------------------------------------- 4b. histories on ONE grid object: every call must be the
+    #      quadrature over the points and weights the grid has AT THE TIME OF THE CALL (public points / weights setters),
+    #      whatever was computed on the object before.  Judged by the direct-quadrature oracle only (the model is stateless:
+    #      the theorems are about one call on the current arrays).
+    from grid.angular import AngularGrid
+    from grid.basegrid import Grid as BaseGrid
+    from grid.basegrid import OneDGrid
+    from grid.cubic import UniformGrid
+
+    def make_grid(kind, dim):
+        if kind == "Grid":
+            n = rng.randint(2, 7)
+            return BaseGrid(np.array([[rng.randint(-8, 8) / 4.0 for _ in range(dim)] for _ in range(n)]),
+                            np.array([rng.choice([-0.75, 0.25, 0.5, 0.75, 1.25, 1.5]) for _ in range(n)]))
+        if kind == "UniformGrid":
+            shape = [rng.choice([2, 3]) for _ in range(dim)]
+            axes = np.diag([rng.choice([0.25, 0.5, 0.75]) for _ in range(dim)])
+            return UniformGrid(np.array([rng.randint(-4, 4) / 4.0 for _ in range(dim)]), axes, np.array(shape))
+        if kind == "AngularGrid":
+            return AngularGrid(degree=rng.choice([3, 5, 7]))
+        raise ValueError(kind)
+
+    def hist_moments(g, hist, cur, ty, L, cs, fkind, cls, tag):
+        """One moments() call inside a history; cur = (points, weights) assigned last, as float lists."""
+        fa, f = draw_f(rng, len(cur[1]), fkind, "float")
+        hist.append({"op": "moments", "type": ty, "orders": L, "centers": cs, "func_vals": f, "func_vals_dtype": fkind})
+        try:
+            m, o = g.moments(L, np.array(cs, dtype=float), fa, ty, return_orders=True)
+            res = (np.asarray(m), np.asarray(o))
+        except Exception as e:  # noqa: BLE001
+            res = ("crash", type(e).__name__)
+        dim = len(cur[0][0])
+        ctx.case(("hist", cls, ty, L, len(cs), tag, len(hist)))
+        ctx.count(f"history:{cls}:{ty}")
+        return check_property(ty, dim, L, cur[0], cur[1], cs, f, res, False, f"history:{cls}:{tag}:step{len(hist)}", fkind, "plain",
+                              {"history": [dict(h) for h in hist], "class": cls,
+                               "reproduce": "replay `history` in order on ONE grid object of `class` built from the first `points`/`weights` entry: "
+                                            "op=points -> grid.points = np.array(points); op=weights -> grid.weights = np.array(weights); "
+                                            "op=moments -> grid.moments(orders, np.array(centers), np.array(func_vals, dtype=func_vals_dtype), type); "
+                                            "the last call is the failing one; expected = direct quadrature over the points/weights assigned last"})
+
+    def new_points(pts, how):
+        a = np.array(pts, dtype=float)
+        if how == "shift":
+            a = a + np.array([rng.randint(1, 6) / 4.0 * rng.choice([-1, 1]) for _ in range(a.shape[1])])
+        elif how == "scale":
+            a = a * rng.choice([0.5, 1.5, 2.0, 3.0])
+        elif how == "permute":
+            a = a[np.roll(np.arange(len(a)), 1)] if len(a) > 1 else a + 0.25
+        elif how == "tiny":
+            a = a + np.array([[rng.uniform(1e-6, 3e-6) * rng.choice([-1, 1]) for _ in range(a.shape[1])] for _ in range(len(a))])
+        return a
+
+    def new_weights(w, how):
+        a = np.array(w, dtype=float)
+        if how == "scale":
+            return a * rng.choice([0.5, 2.0, 4.0])
+        if how == "permute" and len(a) > 1 and len(set(a.tolist())) > 1:
+            return a[np.roll(np.arange(len(a)), 1)]
+        return a + np.array([rng.choice([0.25, 0.5, -0.125]) for _ in range(len(a))])
+
+    def other(ty, dim):
+        pool = [t for t in (TYPES if dim == 3 else ["cartesian", "radial"]) if t != ty]
+        return rng.choice(pool)
+
+    nhist = 40 if quick else 400
+    templates = ["points-same", "points-other", "weights", "funcvals", "interleaved", "shell"]
+    hows = ["shift", "scale", "permute", "tiny"]
+    for k in range(nhist):
+        tpl = templates[k % len(templates)]
+        cls = ["Grid", "UniformGrid", "AngularGrid"][(k // len(templates)) % 3] if tpl != "shell" else "AngularGrid"
+        dim = 3 if cls == "AngularGrid" else [3, 2, 1, 3][(k // 18) % 4]
+        if cls == "UniformGrid" and dim == 1:
+            dim = 2  # UniformGrid exists in 2-D and 3-D only
+        g = make_grid(cls, dim)
+        cur = [np.asarray(g.points, dtype=float).tolist(), np.asarray(g.weights, dtype=float).tolist()]
+        hist = [{"op": "points", "points": cur[0]}, {"op": "weights", "weights": cur[1]}]
+        ty = rng.choice(TYPES if dim == 3 else ["cartesian", "radial"])
+        L = rng.randint(1, 4) if ty != "pure-radial" else rng.randint(1, 3)
+        cs = [[rng.randint(-6, 6) / 4.0 for _ in range(dim)] for _ in range(rng.randint(1, 3))]
+        if k % 4 == 0:
+            cs[0] = list(cur[0][0])  # a centre on a grid point
+        fk = FKINDS[k % 5]
+        tag = f"{tpl}#{k}"
+
+        def set_points(how):
+            a = new_points(cur[0], how)
+            g.points = a
+            cur[0] = a.tolist()
+            hist.append({"op": "points", "how": how, "points": cur[0]})
+
+        def set_weights(how):
+            a = new_weights(cur[1], how)
+            g.weights = a
+            cur[1] = a.tolist()
+            hist.append({"op": "weights", "how": how, "weights": cur[1]})
+
+        ok = hist_moments(g, hist, cur, ty, L, cs, fk, cls, tag)
+        if not ok:
+            continue
+        if tpl == "points-same":           # the same request after the points were replaced
+            for how in rng.sample(hows, 2):
+                set_points(how)
+                ok = ok and hist_moments(g, hist, cur, ty, L, cs, fk, cls, tag)
+        elif tpl == "points-other":        # a different type / order / centres after the points were replaced, then the first again
+            set_points(rng.choice(hows))
+            t2 = other(ty, dim)
+            hist_moments(g, hist, cur, t2, rng.randint(1, 3), cs, "float64", cls, tag)
+            hist_moments(g, hist, cur, ty, L + 1 if ty != "pure-radial" else max(1, L - 1), cs, fk, cls, tag)
+            cs2 = [[c + 0.5 for c in cs[0]]] + cs
+            hist_moments(g, hist, cur, ty, L, cs2, fk, cls, tag)
+            hist_moments(g, hist, cur, ty, L, cs, fk, cls, tag)
+        elif tpl == "weights":             # the same request after the weights were replaced
+            for how in ("scale", "permute", "add"):
+                set_weights(how)
+                hist_moments(g, hist, cur, ty, L, cs, fk, cls, tag)
+        elif tpl == "funcvals":            # consecutive calls with different function values (and dtypes)
+            for fk2 in rng.sample(FKINDS, 3):
+                hist_moments(g, hist, cur, ty, L, cs, fk2, cls, tag)
+        elif tpl == "interleaved":         # types interleaved with point / weight changes
+            seq = [other(ty, dim), ty, other(ty, dim), ty]
+            for i, t2 in enumerate(seq):
+                if i == 1:
+                    set_points(rng.choice(hows))
+                if i == 3:
+                    set_weights("scale")
+                    set_points(rng.choice(hows))
+                hist_moments(g, hist, cur, t2, L if t2 == ty else rng.randint(1, 3), cs, FKINDS[(k + i) % 5], cls, tag)
+        else:                              # the library's own pattern (AtomGrid.get_shell_grid): sphere.points = pts * r; sphere.weights = wts * r**2
+            for r in (0.5, 2.0):
+                a = np.array(cur[0]) * r
+                g.points = a
+                cur[0] = a.tolist()
+                hist.append({"op": "points", "how": f"shell r={r}", "points": cur[0]})
+                b = np.array(cur[1]) * r ** 2
+                g.weights = b
+                cur[1] = b.tolist()
+                hist.append({"op": "weights", "how": f"shell r={r}", "weights": cur[1]})
+                hist_moments(g, hist, cur, ty, L, cs, fk, cls, tag)
+    # OneDGrid keeps its points as a 1-D array
+    og = OneDGrid(np.array([-0.75, -0.25, 0.5, 1.0]), np.array([0.5, 0.25, 0.75, 0.5]))
+    try:
+        og.moments(1, np.array([[0.25]]), np.ones(4), "cartesian")
+        og_err = None
+    except Exception as e:  # noqa: BLE001
+        og_err = type(e).__name__
+    ctx.case(("hist", "OneDGrid"))
+    if og_err is not None:
+        emit("entry_is_quadrature_cartesian", "OneDGrid([-0.75,-0.25,0.5,1.0],[0.5,0.25,0.75,0.5]).moments(1, [[0.25]], ones(4), 'cartesian')", og_err,
+             f"Grid.moments on a OneDGrid (points of shape (N,)) raises {og_err}; histories on OneDGrid cannot be run",
+             {"reproduce": "from grid.basegrid import OneDGrid; OneDGrid(np.array([-0.75,-0.25,0.5,1.0]), np.array([0.5,0.25,0.75,0.5])).moments(1, np.array([[0.25]]), np.ones(4), 'cartesian')",
+              "expected": "rows [0],[1]: sum w f (x-0.25)^n = [2.0, -0.0625]"})
+    else:
+        ctx.notes.append("OneDGrid.moments runs; add OneDGrid to the history classes")
+
     # ---------------------------------------------------------------- 5. dipole helper
     from grid.basegrid import Grid
     cases, meta = [], []
@@ -920,7 +1077,10 @@ def run(ctx: Ctx):
                        "by (type, dim, order, #points, #centres, draw); function values / densities are passed as float64, int64, int32, bool and "
                        "float32 arrays, contiguous, as non-contiguous views and write-protected (all arrays), with non-integer points and "
                        "centres; the expected value is always the float64 quadrature of the given values; Python lists are rejected by the "
-                       "API (AttributeError on .ndim) and are not part of the domain" % (LMAX_ORD, 6 if quick else 9))
+                       "API (AttributeError on .ndim) and are not part of the domain; histories on ONE grid object (Grid 1-3 D, UniformGrid, "
+                       "AngularGrid): moments -> reassign points (shift, scale, permutation, 1e-6 perturbation) or weights -> moments with the "
+                       "same and with different type/order/centres, consecutive calls with different function values, interleaved types, "
+                       "the AtomGrid.get_shell_grid pattern; every call judged by direct quadrature over the arrays assigned last" % (LMAX_ORD, 6 if quick else 9))
     ctx.trusted += [
         "py2coq/int translator OrdersTranslator (tools/props/c14.py) for generate_orders_horton_order; validated by exact correspondence on all orders 0..%d" % LMAX_ORD,
         "NumPy semantics assumed by the model vocabulary: np.array of int rows (ragged -> error, [] -> shape (0,)), np.vstack row stacking with equal widths, np.arange, np.ravel; a dtype attribute missing from the installed NumPy raises",
